@@ -1,6 +1,129 @@
-"""thorough tier: checker self-validation on scratch copies of the current tree (filled in below)."""
+"""thorough tier: checker self-validation on scratch copies of the current tree.
+
+(i)  every breaking variant whose rule belongs to the property must make that rule report a finding;
+(ii) every equivalent variant must leave all rules of the property silent (apart from listed known findings) and must not
+     make them lose their anchors.
+Results go to the evidence; a rule that fails its own validation makes the run exit 2 (never a VIOLATION).
+"""
+import ast
+import multiprocessing
+import os
+import shutil
+import tempfile
+
+from . import variants
+
+RULE_ALIAS = {'R-MONOTONE': 'R-MONOTONE-CALLERS'}
 
 
-def run(repo, prop, rules):
-    return {'mutants_applied': 0, 'mutants_killed': 0, 'equivalents': 0, 'equivalents_silent': 0, 'problems': [],
-            'note': 'self-validation corpus not built yet'}
+def _copy_tree(repo):
+    d = tempfile.mkdtemp(prefix='traph-selfval-')
+    shutil.copytree(os.path.join(repo, 'traph'), os.path.join(d, 'traph'), ignore=shutil.ignore_patterns('__pycache__'))
+    shutil.copy(os.path.join(repo, 'setup.py'), os.path.join(d, 'setup.py'))
+    return d
+
+
+def _run_rules(root, rules):
+    from .core import Ctx, run_rule
+    from .program import AnalysisError
+    from . import rules as R
+    R.load_all()
+    out = {}
+    try:
+        ctx = Ctx(root, tier='quick')
+    except AnalysisError as e:
+        return {'*': ('error', str(e))}
+    for r in rules:
+        try:
+            rr = run_rule(ctx, r)
+            out[r] = ('ok', [(f.rule, f.func, f.stmt, f.msg[:160]) for f in rr.findings])
+        except AnalysisError as e:
+            out[r] = ('error', str(e)[:300])
+        except Exception as e:  # noqa
+            out[r] = ('crash', repr(e)[:300])
+    return out
+
+
+def _breaking_job(args):
+    repo, idx = args
+    v = variants.breaking_variants(repo)[idx]
+    p = os.path.join(repo, v.path)
+    if not os.path.exists(p):
+        return (v.id, 'absent', None)
+    src = open(p).read()
+    try:
+        new = v.edit(src)
+    except Exception as e:  # noqa
+        return (v.id, 'absent', 'edit failed: %r' % e)
+    if new is None or new == src:
+        return (v.id, 'absent', None)
+    try:
+        ast.parse(new)
+    except SyntaxError as e:
+        return (v.id, 'absent', 'variant does not parse: %s' % e)
+    d = _copy_tree(repo)
+    try:
+        open(os.path.join(d, v.path), 'w').write(new)
+        rule = RULE_ALIAS.get(v.rule, v.rule)
+        res = _run_rules(d, [rule])
+    finally:
+        shutil.rmtree(d, ignore_errors=True)
+    if '*' in res:
+        return (v.id, 'engine-error', res['*'][1])
+    st, val = res[rule]
+    if st != 'ok':
+        return (v.id, 'rule-error', val)
+    return (v.id, 'killed' if val else 'survived', val[:2])
+
+
+def _equivalent_job(args):
+    repo, idx, rules = args
+    name, fn = variants.equivalent_variants()[idx]
+    d = _copy_tree(repo)
+    try:
+        for dp, dn, fnames in os.walk(os.path.join(d, 'traph')):
+            for f in fnames:
+                if f.endswith('.py'):
+                    p = os.path.join(dp, f)
+                    src = open(p).read()
+                    open(p, 'w').write(fn(src))
+        res = _run_rules(d, rules)
+    finally:
+        shutil.rmtree(d, ignore_errors=True)
+    return (name, res)
+
+
+def run(repo, prop, rules, known=()):
+    rules = [RULE_ALIAS.get(r, r) for r in rules]
+    allv = variants.breaking_variants(repo)
+    mine = [i for i, v in enumerate(allv) if RULE_ALIAS.get(v.rule, v.rule) in rules]
+    nproc = min(16, max(1, len(mine) + 3))
+    problems = []
+    with multiprocessing.Pool(nproc) as pool:
+        bres = pool.map(_breaking_job, [(repo, i) for i in mine])
+        eres = pool.map(_equivalent_job, [(repo, i, rules) for i in range(len(variants.equivalent_variants()))])
+    applied = [r for r in bres if r[1] != 'absent']
+    killed = [r for r in applied if r[1] == 'killed']
+    for vid, st, info in applied:
+        if st != 'killed':
+            problems.append('breaking variant `%s` is not reported by its rule (%s: %s)' % (vid, st, info))
+    eq_silent = 0
+    eq_details = []
+    for name, res in eres:
+        bad = []
+        for r, (st, val) in res.items():
+            if st != 'ok':
+                bad.append('%s: %s %s' % (r, st, val))
+            else:
+                for f in val:
+                    if (f[0], f[1]) in {(k[0], k[1]) for k in known}:
+                        continue      # a listed known finding (its statement text changes under renaming)
+                    bad.append('%s reports %s in %s: %s' % (r, f[0], f[1], f[3]))
+        if not bad:
+            eq_silent += 1
+        else:
+            problems.append('equivalent variant `%s` is not silent: %s' % (name, '; '.join(bad[:4])))
+        eq_details.append({'variant': name, 'silent': not bad})
+    return {'mutants_generated': len(mine), 'mutants_applied': len(applied), 'mutants_killed': len(killed),
+            'equivalents': len(eres), 'equivalents_silent': eq_silent, 'problems': problems,
+            'breaking': [{'variant': vid, 'result': st} for vid, st, info in bres], 'equivalent': eq_details}
